@@ -326,6 +326,13 @@ static void c_after(vf_trace_t* tr) {
     VF_INC(checks);
     size_t pc = arena_popcount(g_arena_id);
     if (pc != g_arena_inuse0) { SVIOL("arena-bits-left", "after everything was freed %zu in-use bits are set in the arena, expected %zu (left-over bits only)", pc, g_arena_inuse0); return; }
+    /* ... block by block (the way ordinary segments ask for it), wherever the last claims of the run happened to land ... */
+    { static mi_memid_t mids[128]; static void* ps[128]; int got = 0; const int nb = g_prog->arena_blocks - (int)g_arena_inuse0;
+      for (int i = 0; i < nb && i < 128; i++) { ps[i] = _mi_arena_alloc_aligned(MI_ARENA_BLOCK_SIZE, MI_ARENA_BLOCK_SIZE, 0, false, false, g_arena_id, &mids[i]); if (ps[i] == NULL) break; got++; }
+      if (got < nb && got < 128) { SVIOL("arena-not-reusable", "after everything was freed only %d of the arena's %d free blocks can be allocated one at a time", got, nb); return; }
+      for (int i = 0; i < got; i++) _mi_arena_free(ps[i], MI_ARENA_BLOCK_SIZE, 0, mids[i]);
+    }
+    /* ... and in one piece */
     mi_memid_t memid; void* p = _mi_arena_alloc_aligned((size_t)g_prog->arena_blocks * MI_ARENA_BLOCK_SIZE, MI_ARENA_BLOCK_SIZE, 0, false, false, g_arena_id, &memid);
     if (p == NULL) { SVIOL("arena-not-reusable", "after everything was freed the arena of %d blocks cannot be allocated completely", g_prog->arena_blocks); return; }
   }
@@ -464,6 +471,13 @@ static const cprog_t progs[] = {
     .setup = { { { C_MALLOC, 20 * MiB, 30 }, { C_FILL, S8, 40, 9 }, { C_FREE, 48 }, { C_COLLECT, 0 }, { C_FILL, 12 * MiB, 50, 2 } }, { { C_INIT } } },
     .run   = { { { C_WAIT_FREE_DONE, 40, 2 }, { C_MALLOC, 12 * MiB, 60 }, { C_SIGNAL, 0 }, { C_MALLOC, S8, 61 }, { C_MALLOC, S8, 62 } },
                { { C_FREE_WAIT, 40 }, { C_FREE_WAIT, 41 }, { C_WAIT_FLAG, 0 }, { C_FREE, 42 }, { C_MALLOC, S8, 70 }, { C_MALLOC, S8, 71 } } } },
+  /* E3d (MIMALLOC_TARGET_SEGMENTS_PER_THREAD=2): as E3c, but the other thread frees every block of the segment that is about to be
+     force-abandoned (a full page of eight and two single-block pages): flushing the delayed list during the forced abandonment empties
+     the segment while the loop over its pages is still running */
+  { .name = "E3d", .leakcheck = 1, .nthreads = 2, .quiescence = 0,
+    .setup = { { { C_MALLOC, 20 * MiB, 30 }, { C_FILL, S8, 40, 9 }, { C_FREE, 48 }, { C_COLLECT, 0 }, { C_FILL, 12 * MiB, 50, 2 } }, { { C_INIT } } },
+    .run   = { { { C_WAIT_FREE_DONE, 40, 8 }, { C_WAIT_FREE_DONE, 50, 2 }, { C_MALLOC, 12 * MiB, 60 }, { C_MALLOC, S8, 61 }, { C_COLLECT, 1 } },
+               { { C_FREE_RANGE_WAIT, 40, 8 }, { C_FREE_WAIT, 50 }, { C_FREE_WAIT, 51 }, { C_MALLOC, S8, 70 } } } },
   /* E5: two remote frees into one abandoned segment (with reclaim-on-free both try to adopt it), then both allocate */
   { .name = "E5", .leakcheck = 1, .nthreads = 3, .quiescence = 0,
     .setup = { { { C_INIT } }, { { C_INIT } }, { { C_MALLOC, 1024, 0 }, { C_MALLOC, 1024, 1 }, { C_MALLOC, 1024, 2 }, { C_THREAD_DONE } } },
@@ -487,6 +501,12 @@ static const cprog_t progs[] = {
   { .name = "E8", .leakcheck = 1, .nthreads = 3, .quiescence = 0,
     .setup = { { { C_INIT } }, { { C_INIT } }, { { C_MALLOC, S8, 0 }, { C_MALLOC, 40 * MiB, 1 }, { C_THREAD_DONE } } },
     .run   = { { { C_WAIT_FLAG, 0 }, { C_COLLECT, 1 }, { C_EXPECT_UNMAPPED, 1 }, { C_FREE, 0 } }, { { C_FREE, 1 }, { C_SIGNAL, 0 } }, { { C_END } } } },
+  /* E9: the exiting thread owns two pages of one segment in different size classes; the block of the higher class is freed by another
+     thread around the exit (its page becomes empty and is released during the exit, after the other page was abandoned), the other
+     block later: the segment must end up abandoned (adoptable, and released with its last block), not orphaned */
+  { .name = "E9", .leakcheck = 1, .nthreads = 3, .quiescence = 0,
+    .setup = { { { C_INIT } }, { { C_INIT } }, { { C_MALLOC, 64, 0 }, { C_MALLOC, S8, 1 } } },
+    .run   = { { { C_FREE, 1 }, { C_WAIT_FLAG, 1 }, { C_FREE, 0 } }, { { C_END } }, { { C_THREAD_DONE }, { C_SIGNAL, 1 } } } },
   /* E4: sub-processes: a thread of another sub-process allocates while a segment of the main one is abandoned */
   { .name = "E4", .leakcheck = 1, .nthreads = 3, .quiescence = 0,
     .setup = { { { C_INIT } }, { { C_MALLOC, S8, 0 }, { C_MALLOC, S8, 1 } }, { { C_SUBPROC }, { C_INIT } } },
@@ -503,10 +523,21 @@ static const cprog_t progs[] = {
   { .name = "D3", .nthreads = 2, .quiescence = 1,
     .setup = { { { C_HEAP_NEW, 1 }, { C_HFILL, 1, S8, 0, 17 } }, { { C_INIT } } },
     .run   = { { { C_HEAP_DELETE, 1 } }, { { C_FREE, 8 }, { C_FREE, 0 } } } },
+  /* D4: heap delete while two other threads each free a block of the same full page of that heap (both frees can be inside their
+     delayed-freeing windows when the delete drains the heap's delayed list) */
+  { .name = "D4", .nthreads = 3, .quiescence = 1,
+    .setup = { { { C_HEAP_NEW, 1 }, { C_HFILL, 1, S8, 0, 9 } }, { { C_INIT } }, { { C_INIT } } },
+    .run   = { { { C_HEAP_DELETE, 1 } }, { { C_FREE, 0 } }, { { C_FREE, 1 } } } },
   /* A1: arena seam: concurrent multi-block claims that cross a bitmap word boundary, a free, and a purge */
   { .name = "A1", .nthreads = 3, .arena_blocks = 70,
     .setup = { { { C_ARENA_ALLOC, 60, 0 } }, { { C_INIT } }, { { C_INIT } } },
     .run   = { { { C_ARENA_ALLOC, 5, 10 }, { C_ARENA_FREE, 10 } }, { { C_ARENA_ALLOC, 4, 11 } }, { { C_ARENA_ALLOC, 3, 12 }, { C_ARENA_FREE, 12 } } } },
+  /* A4: single- and two-block claims (the path ordinary segments take) in an arena of two bitmap words: the first word is full, claims
+     land in the second, then blocks of the first word are freed and later small claims must find them (and, after everything was
+     freed, the arena must be allocatable block by block) */
+  { .name = "A4", .nthreads = 3, .arena_blocks = 70,
+    .setup = { { { C_ARENA_ALLOC, 62, 0 }, { C_ARENA_ALLOC, 2, 1 } }, { { C_INIT } }, { { C_INIT } } },
+    .run   = { { { C_ARENA_ALLOC, 1, 10 }, { C_ARENA_FREE, 1 }, { C_ARENA_ALLOC, 2, 11 } }, { { C_ARENA_ALLOC, 2, 12 }, { C_ARENA_ALLOC, 1, 13 } }, { { C_ARENA_ALLOC, 1, 14 }, { C_ARENA_FREE, 14 } } } },
   /* A3: a cross-word claim that loses its final word to a competing claim and has to roll back its initial word while a
      third thread frees other blocks of that same word (arena: 70 blocks; bits 0..59 taken, 58..59 freed during the race) */
   { .name = "A3", .nthreads = 3, .arena_blocks = 70,
